@@ -1,9 +1,11 @@
 (* Extraction of the C14 model: ExtrOcamlBasic only, no Extract Constant. *)
 Require Import ExtrOcamlBasic.
-From SharkV Require Import ListAux C13Model C14Model C14Ind C14Nsga3 C14Var C14Loop.
+From SharkV Require Import ListAux C13Model C14Model C14Ind C14Nsga3 C14Var C14Loop C14Init.
 Extraction "c14_model.ml" indicator_selection select_with_ranks least_contributors hv_lc ss_step
   contribs_spec hv_spec rank_list penalized_eval box_feasible box_closest count_true
   eps_lcs eps_result hv_ind_lcs hv_ind_lc cd_lcs cd_lc cd_distances cd_isort min_element least_contributors_g
   nsga3_lcs n3_unit n3_corners n3_translate n3_normalizer n3_normalize n3_pairing
   sbx pm tournament elitist pos_isort
-  gen_update ss_update gen_step run_gen run_ss solution.
+  gen_update ss_update gen_step run_gen run_ss solution
+  init_parents init_solution mocma_init nsga2_init nsga3_init smsemoa_init moead_init ssmocma_init rvea_init rvea_mu
+  ss_sort oracle_ok init_indices.
